@@ -84,7 +84,7 @@ fn upstream(k: Kind) -> bool {
 }
 
 fn ev_json(e: &Ev) -> Value {
-    json!({"t_us": e.t, "ev": e.kind.name(), "server": e.server, "proto": pname(e.proto), "q": e.q, "seq": e.seq})
+    json!({"t_us": e.t, "ev": e.kind.name(), "server": e.server, "proto": pname(e.proto), "q": e.q, "seq": e.seq, "driven_by_caller": e.caller})
 }
 
 fn call_json(c: &CallRes) -> Value {
@@ -138,30 +138,45 @@ impl<'a> Judge<'a> {
     }
 
     /// clauses (i)–(iv) + freshness for one completed (non-cancelled) lookup; `win` = [start, end]
-    /// of the shared execution this caller was part of
-    fn lookup(&mut self, out: &RunOut, c: &CallRes, win: (u64, u64), exact_window: bool) {
+    /// of the shared execution this caller was part of; `members` = indices of all callers that
+    /// took part in it (every upstream event is tagged with the caller that was driving the shared
+    /// future, so the events of this lookup are exactly those tagged with a member). `None` =
+    /// attribution impossible (overlapping lookups of one key after a creator cancelled): events
+    /// are then taken by key and time window and the log-order clauses are skipped.
+    fn lookup(&mut self, out: &RunOut, c: &CallRes, win: (u64, u64), members: Option<&[usize]>) {
         let scn = self.scn;
         let t_us = scn.timeout * 1000;
         self.rep.eval();
         let okind = outcome_kind(scn, out, &c.outcome);
         self.rep.count(&format!("outcome_{okind}"));
+        let exact = members.is_some();
+        let evs: Vec<&Ev> = out
+            .log
+            .iter()
+            .filter(|e| {
+                e.q == c.q as i32
+                    && match members {
+                        Some(m) => e.caller >= 0 && m.contains(&(e.caller as usize)),
+                        None => e.t >= win.0 && e.t <= win.1,
+                    }
+            })
+            .collect();
 
         // ---- (i) deadline
         let elapsed = c.end - c.start;
         self.rep.max("max_elapsed_over_timeout", elapsed as f64 / t_us as f64);
-        if elapsed > t_us + 1000 && !exact_window {
-            // overlapping lookups of one key after a creator cancelled: the upstream log cannot be
-            // attributed, so the overrun cannot be classified — not judged (rare)
+        if elapsed > t_us + 1000 && !exact {
+            // the overrun cannot be classified — not judged (rare)
             self.rep.count("dc_deadline_unjudged_after_creator_cancel");
         } else if elapsed > t_us + 1000 {
-            // What was the pool doing when the deadline passed?  (A send at the very completion
-            // instant may belong to the next lookup of this key, hence `< win.1`.)
+            // What was the pool doing when the deadline passed?
             let dl = win.0 + t_us;
-            let mine = |e: &&Ev| e.t >= win.0 && e.t < win.1 && e.q == c.q as i32 && matches!(e.kind, Kind::Send | Kind::ConnectStart);
-            let late_start = out.log.iter().filter(mine).any(|e| e.t >= dl);
-            let in_flight = out.log.iter().filter(mine).any(|e| {
+            let starts = || evs.iter().filter(|e| matches!(e.kind, Kind::Send | Kind::ConnectStart));
+            // (`< win.1`: at the completion instant only zero-time activity can still start)
+            let late_start = starts().any(|e| e.t >= dl && e.t < win.1);
+            let in_flight = starts().any(|e| {
                 e.t < dl
-                    && !out.log.iter().any(|r| {
+                    && !evs.iter().any(|r| {
                         r.seq == e.seq
                             && r.t <= dl
                             && match e.kind {
@@ -219,7 +234,7 @@ impl<'a> Judge<'a> {
                 if bad.is_none() {
                     match reply {
                         Some(e) if e.server == *server as usize && e.proto == *proto && e.q == c.q as i32 => {
-                            if e.t < win.0 {
+                            if if exact { !evs.iter().any(|x| x.seq == e.seq && x.kind == e.kind) } else { e.t < win.0 } {
                                 self.viol(
                                     "sharing",
                                     "stale-result",
@@ -244,7 +259,7 @@ impl<'a> Judge<'a> {
                 let reply = out.log.iter().find(|e| e.seq == *seq && e.kind == Kind::ReplyNx);
                 match reply {
                     Some(e) if e.q == c.q as i32 && matches!(scn.servers.get(e.server).and_then(|s| s.slot(e.proto)), Some(Beh::Nx { .. })) => {
-                        if e.t < win.0 {
+                        if if exact { !evs.iter().any(|x| x.seq == e.seq && x.kind == e.kind) } else { e.t < win.0 } {
                             self.viol(
                                 "sharing",
                                 "stale-result",
@@ -266,14 +281,12 @@ impl<'a> Judge<'a> {
 
         // ---- truncated UDP reply is retried over TCP: within one lookup, a server that sent TC=1
         // is never asked over UDP again (judged once per shared lookup, on its creator)
-        if exact_window && c.start == win.0 {
-            let evs: Vec<&Ev> = out.log.iter().filter(|e| e.q == c.q as i32 && e.t >= win.0 && e.t <= win.1).collect();
+        if exact && c.start == win.0 {
             for (i, e) in evs.iter().enumerate() {
                 if e.kind != Kind::ReplyTrunc {
                     continue;
                 }
-                // (a send at the completion instant may belong to the next lookup of this key)
-                if let Some(again) = evs[i + 1..].iter().find(|f| f.kind == Kind::Send && f.server == e.server && f.proto == 1 && f.t < win.1) {
+                if let Some(again) = evs[i + 1..].iter().find(|f| f.kind == Kind::Send && f.server == e.server && f.proto == 1) {
                     self.viol(
                         "tc-retry",
                         "udp-again-to-truncating-server",
@@ -293,7 +306,7 @@ impl<'a> Judge<'a> {
             let good = okind == "ok" || (any_trusted_nx && okind == "nx-trusted");
             if !good {
                 // structural discriminator: what came back, and whether a truncation was involved
-                let tc = out.log.iter().any(|e| e.kind == Kind::ReplyTrunc && e.q == c.q as i32 && e.t >= win.0 && e.t <= win.1);
+                let tc = evs.iter().any(|e| e.kind == Kind::ReplyTrunc);
                 self.viol(
                     "availability",
                     &format!("got={okind}{}", if tc { "|after-truncation" } else { "" }),
@@ -306,9 +319,9 @@ impl<'a> Judge<'a> {
         // ---- (iv) an untrusted NXDOMAIN does not end the search
         if okind == "nx-untrusted" {
             self.rep.count("nx_untrusted_final");
-            let tc_seen = out.log.iter().any(|e| e.kind == Kind::ReplyTrunc && e.q == c.q as i32 && e.t >= win.0 && e.t <= win.1);
+            let tc_seen = evs.iter().any(|e| e.kind == Kind::ReplyTrunc);
             for (i, s) in scn.servers.iter().enumerate() {
-                let attempted = out.log.iter().any(|e| upstream(e.kind) && e.server == i && e.q == c.q as i32 && e.t >= win.0 && e.t <= win.1);
+                let attempted = evs.iter().any(|e| upstream(e.kind) && e.server == i);
                 let udp_only = s.tcp.is_none();
                 if !attempted && !(udp_only && tc_seen) {
                     let cl = match classify(s, scn.timeout) {
@@ -413,90 +426,99 @@ pub fn judge(rep: &mut Reporter, scn: &Scenario) {
         json!({"case": scn.to_json(), "results": out.calls.iter().chain(out.later.iter()).map(call_json).collect::<Vec<_>>(), "upstream_events": out.log.len()})
     });
 
-    // ---- epochs of shared lookups per key, clauses (i)-(iv) per caller, (v) outcome part
+    // ---- shared lookups ("epochs") per key: who created, who joined (inferred from the observed
+    // start/end instants); clauses (i)-(iv) per caller; (v) outcome part
+    struct Epoch<'c> {
+        creator: &'c CallRes,
+        members: Vec<usize>,
+        joiners: Vec<&'c CallRes>,
+    }
     let mut tainted_any = false;
+    let mut epoch0_members: Vec<usize> = Vec::new();
     for key in scn.keys() {
         let mut calls: Vec<&CallRes> = out.calls.iter().filter(|c| c.q == key).collect();
         calls.sort_by_key(|c| (c.start, c.idx));
-        // (creator, start, end)
-        let mut cur: Option<(&CallRes, u64, u64)> = None;
+        let mut epochs: Vec<Epoch> = Vec::new();
+        let mut unattributed: Vec<&CallRes> = Vec::new();
         let mut tainted = false;
         for c in calls {
-            let cancelled = c.outcome == Outcome::Cancelled;
-            let joined = match cur {
-                Some((cr, _s, e)) if !tainted => {
+            if tainted {
+                if c.outcome != Outcome::Cancelled {
+                    unattributed.push(c);
+                }
+                continue;
+            }
+            let joins = match epochs.last() {
+                Some(ep) => {
+                    let e = ep.creator.end;
                     if c.start < e {
-                        Some(cr)
+                        true
                     } else if c.start == e {
                         j.rep.count("dc_start_at_completion_instant");
-                        if c.end == e && same_outcome(&c.outcome, &cr.outcome) {
-                            Some(cr)
-                        } else {
-                            None
-                        }
+                        c.end == e && same_outcome(&c.outcome, &ep.creator.outcome)
                     } else {
-                        None
+                        false
                     }
                 }
-                _ => None,
+                None => false,
             };
-            match joined {
-                Some(cr) => {
-                    let (_, s, e) = cur.unwrap();
-                    // a joiner: must end at e with the creator's outcome (unless it cancelled first)
-                    let cancel_at = c.cancel.map(|ms| c.start + ms * 1000);
-                    match cancel_at {
-                        Some(ca) if ca < e => {
-                            j.rep.count("joiner_cancelled_in_flight");
+            if joins {
+                let ep = epochs.last_mut().unwrap();
+                ep.members.push(c.idx);
+                ep.joiners.push(c);
+            } else if c.outcome == Outcome::Cancelled {
+                // a creator that cancels: don't-care from here on (module comment)
+                tainted = true;
+                tainted_any = true;
+                j.rep.count("dc_creator_cancelled");
+            } else {
+                epochs.push(Epoch { creator: c, members: vec![c.idx], joiners: Vec::new() });
+            }
+        }
+        for ep in &epochs {
+            let cr = ep.creator;
+            let (s, e) = (cr.start, cr.end);
+            j.lookup(&out, cr, (s, e), Some(&ep.members));
+            for c in &ep.joiners {
+                let cancel_at = c.cancel.map(|ms| c.start + ms * 1000);
+                match cancel_at {
+                    Some(ca) if ca < e => j.rep.count("joiner_cancelled_in_flight"),
+                    Some(ca) if ca == e => j.rep.count("dc_cancel_at_completion_instant"),
+                    _ => {
+                        j.rep.eval();
+                        j.rep.count("sharing_joiners");
+                        if c.end != e || !same_outcome(&c.outcome, &cr.outcome) {
+                            let sig = if c.end != e { "joiner-completion-time-differs" } else { "joiner-outcome-differs" };
+                            j.viol(
+                                "sharing",
+                                sig,
+                                json!({"all callers of an in-flight identical lookup complete with it": call_json(cr)}),
+                                observed(&out, c),
+                            );
                         }
-                        Some(ca) if ca == e => {
-                            j.rep.count("dc_cancel_at_completion_instant");
-                        }
-                        _ => {
-                            j.rep.eval();
-                            j.rep.count("sharing_joiners");
-                            if c.end != e || !same_outcome(&c.outcome, &cr.outcome) {
-                                let sig = if c.end != e { "joiner-completion-time-differs" } else { "joiner-outcome-differs" };
-                                j.viol(
-                                    "sharing",
-                                    sig,
-                                    json!({"all callers of an in-flight identical lookup complete with it": call_json(cr)}),
-                                    observed(&out, c),
-                                );
-                            }
-                            if !cancelled {
-                                j.lookup(&out, c, (s, e), true);
-                            }
+                        if c.outcome != Outcome::Cancelled {
+                            j.lookup(&out, c, (s, e), Some(&ep.members));
                         }
                     }
                 }
-                None => {
-                    // creator of a new shared lookup
-                    if cancelled {
-                        // don't-care: see module comment
-                        tainted = true;
-                        tainted_any = true;
-                        j.rep.count("dc_creator_cancelled");
-                        cur = None;
-                        continue;
-                    }
-                    if tainted {
-                        // still judge (ii)-(iv) on its own window
-                        j.lookup(&out, c, (c.start, c.end), false);
-                        continue;
-                    }
-                    cur = Some((c, c.start, c.end));
-                    j.lookup(&out, c, (c.start, c.end), true);
-                }
+            }
+        }
+        for c in unattributed {
+            // (ii)-(iv) on its own time window, by key
+            j.lookup(&out, c, (c.start, c.end), None);
+        }
+        if let Some(ep) = epochs.first() {
+            if ep.creator.idx == 0 {
+                epoch0_members = ep.members.clone();
             }
         }
     }
 
     // ---- later identical query: reaches upstream again (active-request map emptied)
     if let Some(l) = &out.later {
-        j.lookup(&out, l, (l.start, l.end), true);
+        j.lookup(&out, l, (l.start, l.end), Some(&[l.idx]));
         j.rep.eval();
-        let n = out.log.iter().filter(|e| upstream(e.kind) && e.t >= l.start).count();
+        let n = out.log.iter().filter(|e| upstream(e.kind) && e.caller == l.idx as i32).count();
         if n == 0 {
             j.viol(
                 "sharing",
@@ -523,18 +545,23 @@ pub fn judge(rep: &mut Reporter, scn: &Scenario) {
         let c0 = &out.calls[0];
         let s0 = &solo.calls[0];
         let e0 = c0.end;
+        if epoch0_members.first() != Some(&0) {
+            return;
+        }
+        // a caller starting at the very completion instant may or may not have driven the shared
+        // future at that instant: attribution of zero-time events is ambiguous, skip
         if out.calls.iter().skip(1).any(|c| c.start == e0) {
             j.rep.count("dc_start_at_completion_instant_count_skipped");
             return;
         }
         j.rep.eval();
         j.rep.count("sharing_count_compared");
-        let joiners = out.calls.iter().skip(1).filter(|c| c.start < e0).count();
-        if joiners > 0 {
+        if epoch0_members.len() > 1 {
             j.rep.count("sharing_count_compared_with_joiners");
         }
-        let cm = counts(&out.log, e0);
-        let cs = counts(&solo.log, s0.end);
+        let mine: Vec<Ev> = out.log.iter().filter(|e| e.caller >= 0 && epoch0_members.contains(&(e.caller as usize))).cloned().collect();
+        let cm = counts(&mine, u64::MAX);
+        let cs = counts(&solo.log, u64::MAX);
         let same_res = c0.end == s0.end && same_outcome(&c0.outcome, &s0.outcome);
         if cm != cs || !same_res {
             let more = cm.iter().any(|(k, n)| cs.get(k).copied().unwrap_or(0) < *n);
@@ -555,8 +582,8 @@ pub fn judge(rep: &mut Reporter, scn: &Scenario) {
             );
         } else {
             // diagnostics only: same events at the same virtual instants?
-            let tm: Vec<(u64, usize, u8)> = out.log.iter().filter(|e| e.kind == Kind::Send && e.t <= e0).map(|e| (e.t, e.server, e.proto)).collect();
-            let ts: Vec<(u64, usize, u8)> = solo.log.iter().filter(|e| e.kind == Kind::Send && e.t <= s0.end).map(|e| (e.t, e.server, e.proto)).collect();
+            let tm: Vec<(u64, usize, u8)> = mine.iter().filter(|e| e.kind == Kind::Send).map(|e| (e.t, e.server, e.proto)).collect();
+            let ts: Vec<(u64, usize, u8)> = solo.log.iter().filter(|e| e.kind == Kind::Send).map(|e| (e.t, e.server, e.proto)).collect();
             if tm != ts {
                 j.rep.count("note_sharing_same_counts_different_times");
             }
